@@ -77,7 +77,13 @@ def check(ctx, res, entries):
     GLOBAL_STATE = ("random.", "os.chdir", "os.putenv", "os.unsetenv", "os.umask", "sys.setrecursionlimit", "sys.setswitchinterval", "sys.setprofile",
                     "locale.setlocale", "warnings.simplefilter", "warnings.filterwarnings", "logging.basicConfig", "logging.disable", "gc.disable", "gc.enable",
                     "gc.collect", "gc.set_threshold", "signal.signal", "signal.alarm", "time.sleep", "builtins.input", "builtins.print", "builtins.exec",
-                    "decimal.setcontext", "decimal.getcontext", "faulthandler.", "tracemalloc.start")
+                    "decimal.setcontext", "decimal.getcontext", "faulthandler.", "tracemalloc.start",
+                    # the ambient context / global providers of the tracing library the program itself may use: a span made current
+                    # by hand (attach without the matching detach) stays the program's current span, a provider set by the agent
+                    # replaces the program's
+                    "opentelemetry.context.attach", "opentelemetry.context.detach", "opentelemetry.context.set_value",
+                    "opentelemetry.trace.set_tracer_provider", "opentelemetry.metrics.set_meter_provider", "opentelemetry.propagate.set_global_textmap",
+                    "contextvars.ContextVar.set")
     nglob = 0
     for k in sorted(scope):
         fi = scope[k]
